@@ -2,6 +2,7 @@
 MUST-invalidate, MUST-insert, AUTH-value, AUTH-va-writer, MUST-update-resets, FLOW-ts-origin, MUST-wo-node,
 MUST-unlink-both (C01, C05, C06, C07, C11)."""
 from .core import RuleResult, CheckFailure
+from .roles import ev_is, wrapper_kind, write_scheduler
 from .roles import named
 from .kernel import norm
 from .roles import (get_roles, HASHMAP_REMOVE, HASHMAP_INSERT, DASHMAP_REMOVE, DASHMAP_INSERT, HASHMAP_MUT, DASHMAP_MUT)
@@ -34,7 +35,7 @@ def rule_must_invalidate(ctx):
             ((('sync::cache::Cache::invalidate', 'dashmap::DashMap::remove'),) if has_sync else ()):
         for p in _run(ctx, nid, inline_depth=4, inline_pred=_no_evict):
             rem = [e for e in p.events if e[0] == 'call' and e[1] == rm and len(e[2]) > 1 and any(x == ('param', 2) for x in subterms(e[2][1]))]
-            first_queue = [i for i, e in enumerate(p.events) if e[0] == 'call' and (str(e[1]).endswith('try_send') or str(e[1]).endswith('schedule_write_op'))]
+            first_queue = [i for i, e in enumerate(p.events) if e[0] == 'call' and (str(e[1]).endswith('try_send') or e[1] in write_scheduler(ctx))]
             ok = bool(rem)
             before = True
             if ok and first_queue:
@@ -139,7 +140,7 @@ def rule_must_insert(ctx):
         def from_value(t):
             return any(isinstance(x, tuple) and x and x[0] == 'aggr' and 'ValueEntry' in str(x[1]) and
                        any(y == ('param', vp) for vp in vparams for y in subterms(x)) for x in subterms(t))
-        for p in _run(ctx, nid, inline_depth=7, inline_pred=lambda n, b, d: False if n.endswith('schedule_write_op') else None):
+        for p in _run(ctx, nid, inline_depth=7, inline_pred=lambda n, b, d: False if n in write_scheduler(ctx) else None):
             if p.diverged:
                 continue
             names = [str(e[1]) for e in p.events if e[0] == 'call']
@@ -274,11 +275,11 @@ def rule_wo_node(ctx):
     n = 0
     for nid, _ in fns:
         for p in _run(ctx, nid, inline_depth=4, loop_visits=2, inline_pred=lambda n_, b, d: False if 'handle_remove' in n_ else None):
-            ao = [e for e in p.events if e[0] == 'call' and str(e[1]).endswith('push_back_ao')]
+            ao = [e for e in p.events if ev_is(ctx, e, 'push', 'ao')]
             if not ao:
                 continue
             n += 1
-            wo = [e for e in p.events if e[0] == 'call' and str(e[1]).endswith('push_back_wo')]
+            wo = [e for e in p.events if ev_is(ctx, e, 'push', 'wo')]
             ttl = None
             other = []
             for c, v in p.conds:
